@@ -186,6 +186,8 @@ struct MFile {
     node: Nid,
     pos: u64,
     dirty: bool,
+    /// creation time set explicitly through this handle (part of the entry its flush hands to the storage)
+    set_created: Option<Ts>,
 }
 
 pub struct Run<'a> {
@@ -239,6 +241,8 @@ pub struct FlushEvent {
     /// number of device writes issued when the guarantee was suspended (None = still valid)
     pub until: Option<usize>,
     pub step: usize,
+    /// creation time set explicitly through the flushed handle, if any
+    pub created: Option<Ts>,
 }
 
 pub fn pattern(seed: u8, off: u64) -> u8 {
@@ -391,10 +395,10 @@ impl<'a> Run<'a> {
             self.call("drop file handle", |s| {
                 s.files[k] = None;
             })?;
-            let n = self.files[k].as_ref().map(|f| f.node);
+            let n = self.files[k].as_ref().map(|f| (f.node, f.set_created));
             self.files[k] = None;
-            if let (true, Some(n)) = (self.crash, n) {
-                self.record_flush_event(n);
+            if let (true, Some((n, c))) = (self.crash, n) {
+                self.record_flush_event(n, c);
             }
         }
         Ok(())
@@ -791,7 +795,7 @@ impl<'a> Run<'a> {
                 if dir {
                     self.dirs[k] = Some(node);
                 } else {
-                    self.files[k] = Some(MFile { node, pos: 0, dirty: false });
+                    self.files[k] = Some(MFile { node, pos: 0, dirty: false, set_created: None });
                 }
             }
         } else if matches!(&res, Err(e) if ek(e) == EK::NotEnoughSpace) {
@@ -875,7 +879,7 @@ impl<'a> Run<'a> {
                 if dir {
                     self.dirs[k] = Some(n);
                 } else {
-                    self.files[k] = Some(MFile { node: n, pos: 0, dirty: false });
+                    self.files[k] = Some(MFile { node: n, pos: 0, dirty: false, set_created: None });
                 }
             }
         }
@@ -1199,21 +1203,21 @@ impl<'a> Run<'a> {
         }
         // a flush point exists only where flush() returned successfully
         if self.crash && flushed {
-            if let Some(n) = self.files[k].as_ref().map(|f| f.node) {
-                self.record_flush_event(n);
+            if let Some((n, c)) = self.files[k].as_ref().map(|f| (f.node, f.set_created)) {
+                self.record_flush_event(n, c);
             }
         }
         Ok(())
     }
 
-    fn record_flush_event(&mut self, n: Nid) {
+    fn record_flush_event(&mut self, n: Nid, created: Option<Ts>) {
         let (at, barrier) = self.dev.with(|d| (d.wlog.len(), d.flush_marks.last().copied() == Some(d.wlog.len())));
         for e in self.flush_events.iter_mut() {
             if e.node == n && e.until.is_none() {
                 e.until = Some(at);
             }
         }
-        let ev = FlushEvent { node: n, path: self.model.path_of(n), data: self.model.data(n).clone(), at, barrier, until: None, step: self.step };
+        let ev = FlushEvent { node: n, path: self.model.path_of(n), data: self.model.data(n).clone(), at, barrier, until: None, step: self.step, created };
         self.flush_events.push(ev);
         self.trace.hit("flush_point");
     }
@@ -1687,8 +1691,8 @@ impl<'a> Run<'a> {
                     f.dirty = false;
                 }
                 if self.crash {
-                    if let Some(n) = self.files[k].as_ref().map(|f| f.node) {
-                        self.record_flush_event(n);
+                    if let Some((n, c)) = self.files[k].as_ref().map(|f| (f.node, f.set_created)) {
+                        self.record_flush_event(n, c);
                     }
                 }
             }
@@ -1717,6 +1721,9 @@ impl<'a> Run<'a> {
             0 => nd.created = t.floor_10ms(),
             1 => nd.modified = t.floor_2s(),
             _ => nd.accessed = t.date_only(),
+        }
+        if which == 0 {
+            self.files[k].as_mut().unwrap().set_created = Some(t.floor_10ms());
         }
         self.files[k].as_mut().unwrap().dirty = true;
         self.trace.hit("set_times");
